@@ -83,3 +83,14 @@ Theorem C04_fuel_never_exhausted :
   (forall fuel L R lw lo rw ro, lo <= lenN L -> lenN L < lo + N.of_nat fuel -> compare_scalar_w fuel L R lw lo rw ro <> Err EFuel).
 Proof. split; [exact compare_w_not_fuel|]. split; [exact compare_b_not_fuel|exact compare_scalar_w_fuel]. Qed.
 Print Assumptions C04_fuel_never_exhausted.
+
+(* M6 (second review): the fuel the model passes is never what decides an answer, on ARBITRARY inputs -- also for the loops
+   whose exhaustion is an ordinary value (None, Ok None, Ok buf, PErr, the input itself), about which `<> Err EFuel` says
+   nothing: any fuel above the one the model passes gives the same answer (FuelIndep.v) *)
+From JB Require FuelIndep.
+Theorem C04_fuel_is_never_decisive :
+  (forall k L R lw lo rw ro, (length L + length R < k)%nat -> CompareWalk.compare_scalar_w k L R lw lo rw ro = CompareWalk.compare_scalar_w (S (length L + length R)) L R lw lo rw ro) /\
+  (forall L R sc k i len joff lb rb lvo rvo llen rlen, (length L < k)%nat -> CompareWalk.arr_loop_w L R sc k i len joff lb rb lvo rvo llen rlen = CompareWalk.arr_loop_w L R sc (S (length L)) i len joff lb rb lvo rvo llen rlen) /\
+  (forall k bs i len j, (length bs < k)%nat -> Walk.rd_words k bs i len j = Walk.rd_words (S (length bs)) bs i len j).
+Proof. split; [exact FuelIndep.compare_scalar_w_any_fuel|split; [exact FuelIndep.arr_loop_w_any_fuel|exact FuelIndep.rd_words_any_fuel]]. Qed.
+Print Assumptions C04_fuel_is_never_decisive.
